@@ -16,7 +16,7 @@ from .. import trees
 from ..drive import build, mk_rule, random_imports, run
 from ..monitors import HUB
 from ..refmodel import rules as rrule
-from ..refmodel.names import is_ancestor
+from ..refmodel.names import is_ancestor, related
 from . import c05
 
 ID = "C14"
@@ -261,8 +261,62 @@ def case_layer(rnd, rho1, rho2, acc, sample=False, forced=None):
                     imps = imps + [(a, b) if rnd.random() < 0.5 else (b, a)]
                 acc.count("layer_cases_with_100_or_more_listed_modules_and_prefix_sibling_packages")
             acc.count("layer_cases_with_100_or_more_listed_modules")
+        prefer = None
+        if rnd.random() < 0.3:
+            # an architecture that kept its external libraries: some packages are TOP-LEVEL modules (no dot in their
+            # name), listed in layers like any other; one listed package with an unlisted sub module and one unlisted
+            # top-level module become prefix siblings (a / ab) under the adversarial renaming
+            in_layer = [t for t in tops if any(t in v for v in layers.values())]
+            free = [t for t in tops if not any(t in v for v in layers.values())]
+            if not free:
+                unused = [c for c in ABSTRACT if "r." + c not in mods]
+                if unused:
+                    free = ["r." + rnd.choice(unused)]
+                    mods = mods + free
+                    tops = tops + free
+            flat = set(rnd.sample(tops, rnd.randint(1, len(tops))))
+            if in_layer and free and rnd.random() < 0.7:
+                t1, t2 = rnd.choice(in_layer), rnd.choice(free)
+                flat |= {t1, t2}
+                listed = {m for v in layers.values() for m in v}
+                kids = [m for m in mods if is_ancestor(t1, m) and m not in listed]
+                if not kids:
+                    kids = [t1 + "." + rnd.choice(ABSTRACT)]
+                    mods = mods + kids
+                rho2 = dict(rho2)
+                cands = [v for v in rho2.values() if v != "a" and v.startswith("a")] or ["ab"]
+                one_more = [v for v in cands if len(v) == 2] or ["ab"]  # the shortest possible extension of the name
+                longer = rnd.choice(one_more if rnd.random() < 0.6 else cands)
+                for comp, want in ((t1.split(".")[1], "a"), (t2.split(".")[1], longer)):
+                    holder = [k for k, v in rho2.items() if v == want]
+                    if holder:
+                        rho2[holder[0]], rho2[comp] = rho2[comp], want
+                    else:
+                        rho2[comp] = want
+                L1 = [k for k, v in layers.items() if t1 in v][0]
+                outside = [m for m in mods if any(is_ancestor(t, m) or t == m for k, v in layers.items() if k != L1 for t in v)]
+                kid = rnd.choice(kids)
+                # the unlisted sub module of the listed package and the unlisted top-level module import each other
+                # (access from the layer to something that is in no layer), and both deal with another layer
+                imps = imps + [rnd.choice([(kid, t2), (t2, kid)])]
+                for tgt in (kid, t2):
+                    if outside and rnd.random() < 0.6:
+                        o_ = rnd.choice(outside)
+                        if not related(o_, tgt):
+                            imps = imps + [(o_, tgt) if rnd.random() < 0.5 else (tgt, o_)]
+                acc.count("layer_cases_with_top_level_prefix_siblings")
+                prefer = L1
+            fl = lambda m: m[2:] if any(m == t or m.startswith(t + ".") for t in flat) else m  # noqa: E731
+            mods = [fl(m) for m in mods]
+            imps = sorted({(fl(a), fl(b)) for a, b in imps})
+            layers = {k: [fl(m) for m in v] for k, v in layers.items()}
+            acc.count("layer_cases_with_top_level_modules")
         names = list(layers)
         rnd.shuffle(names)
+        if prefer and rnd.random() < 0.8:
+            # the rule is about the layer of the shorter-named package (as subject or as first object)
+            names.remove(prefer)
+            names.insert(rnd.choice([0, 0, 1]), prefer)
         anything = rnd.random() < 0.12
         cfg = {"verb": "should_not" if anything else rnd.choice(rrule.VERBS), "dir": rnd.choice(rrule.DIRS), "exc": rnd.random() < 0.5, "anything": anything, "subject": names[0], "objects": [] if anything else names[1 : 1 + rnd.randint(1, min(2, len(names) - 1))]}
     case = {"kind": "layers", "mods": mods, "imps": imps, "layers": layers, "cfg": cfg, "rho2": rho2}
@@ -411,6 +465,8 @@ def floors(acc, tier):
             why.append(f"pairs with a prefix/substring collision for {k}: only {acc.counters[f'pairs_with_collision_{k}']}")
     if acc.counters["anything_batches_with_a_nested_pair_and_a_name_extending_sibling"] < 30:
         why.append("too few 'anything' batches over a nested pair plus a sibling whose name extends the parent's")
+    if acc.counters["layer_cases_with_top_level_prefix_siblings"] < 40:
+        why.append(f"only {acc.counters['layer_cases_with_top_level_prefix_siblings']} layer cases with top-level prefix siblings")
     if acc.counters["scan_pairs_with_module_path_below_root"] < 10:
         why.append("too few scan pairs with module_path below root")
     return why
